@@ -398,7 +398,9 @@ class Shelxfile():
                     multiline = False
                 self._reslist[line_num + wrapindex] = ''
             if wrapindex:
-                # Instructions that are kept as text have to keep the parameters from their continuation lines:
+                # Instructions that are kept as text have to keep the parameters from their continuation lines. The indentation
+                # of the continuation lines is not part of the instruction (it would grow with every read/write cycle):
+                line = ' '.join(line.split())
                 self._reslist[line_num] = line
             # The current line split:
             spline: list = line.split('!')[0].split()  # Ignore comments with "!", see how this performes
